@@ -6,15 +6,17 @@
   duckscript_sdk/src/sdk/std/math/{less_than,greater_than}, std/collections/range.
 
   A Rust `String` is its list of UTF-8 bytes (`utf8Encode` of the scalars); `len`, `find`,
-  `rfind` and slicing count BYTES.  Outside the modelled domain (declared, answered
-  `unmodelled`): `uppercase`/`lowercase` of non-ASCII text; `less_than`/`greater_than` on
+  `rfind` and slicing count BYTES.  `uppercase`/`lowercase` are `str::to_uppercase` /
+  `str::to_lowercase` over all of Unicode (Sdk/CaseMap.lean, tables UnicodeCase.lean).  Outside
+  the modelled domain (declared, answered `unmodelled`): `less_than`/`greater_than` on
   literals that are not plain decimals of at most 15 digits (exponents, inf, nan, long
-  mantissas: IEEE-754 rounding is not modelled).  `calc` (the `evalexpr` crate) is not modelled.
+  mantissas: IEEE-754 rounding is not modelled).  `calc` is modelled in Sdk/Calc.lean.
   Imports only model files: linked into the `driver` executable.
 -/
 import DuckModel.Types
 import DuckModel.Chars
 import DuckModel.Sdk.Utf8
+import DuckModel.Sdk.CaseMap
 
 namespace Duck.Strings
 open Duck
@@ -155,7 +157,8 @@ def replace (s p to : Str) : Bytes :=
   if p = [] then enc to ++ s.flatMap (fun c => utf8EncodeChar c ++ enc to)
   else replaceF (enc p) (enc to) ((enc s).length + 1) (enc s)
 
-/-! ### case mapping (ASCII only) -/
+/-! ### case mapping: the ASCII maps (what `to_uppercase`/`to_lowercase` do on ASCII text, see
+    `C16_case_upper_ascii` / `C16_case_lower_ascii`); the full maps are in Sdk/CaseMap.lean -/
 
 def asciiUpperChar (c : Char) : Char :=
   if 'a'.toNat ≤ c.toNat ∧ c.toNat ≤ 'z'.toNat then Char.ofNat (c.toNat - 32) else c
@@ -299,10 +302,11 @@ def trimWith (f : Str → Str) (args : List Str) : Out :=
   | [] => .none
   | s :: _ => .str (enc (f s))
 
-def caseWith (f : Char → Char) (args : List Str) : Out :=
+/-- `uppercase` / `lowercase`: the whole-text function of the standard library -/
+def caseWith (f : Str → Str) (args : List Str) : Out :=
   match args with
   | [] => .err
-  | s :: _ => if isAscii s then .str (enc (s.map f)) else .unmodelled
+  | s :: _ => .str (enc (f s))
 
 def range (args : List Str) : Out :=
   match args with
@@ -333,8 +337,8 @@ def run (cmd : String) (args : List Str) : Option Out :=
   | "trim" => some (trimWith trim args)
   | "trim_start" => some (trimWith trimStart args)
   | "trim_end" => some (trimWith trimEnd args)
-  | "uppercase" => some (caseWith asciiUpperChar args)
-  | "lowercase" => some (caseWith asciiLowerChar args)
+  | "uppercase" => some (caseWith UCase.toUppercase args)
+  | "lowercase" => some (caseWith UCase.toLowercase args)
   | "range" => some (range args)
   | "less_than" => some (lessThan args)
   | "greater_than" => some (greaterThan args)
